@@ -53,6 +53,10 @@ declarations:
 - decl: int apply(int n, int (*fn)(int))
 - decl: int apply(double x, int (*fn)(int value))
 - decl: void visit(void (*fn)(double *v +rank(1), int n))
+- decl: void logValue(const std::string &name, double value)
+  fortran_generic:
+  - decl: (float value)
+  - decl: (double value)
 - decl: enum Kind { ONE, TWO = 4 }
 - decl: class Obj
   doxygen:
